@@ -216,7 +216,7 @@ static void run_oneshot(const KV *kv, const P *p)
 	}
 	else if (!strcmp(f, "tls13_enc")) { block_cipher_set_encrypt_key(&bek, BLOCK_CIPHER_sm4(), p->key); rc = tls13_gcm_encrypt(&bek, p->iv, p->seq, (int)p->type, in, n, (size_t)p->padlen, out, &ol); }
 	else if (!strcmp(f, "tls13_dec")) { block_cipher_set_encrypt_key(&bek, BLOCK_CIPHER_sm4(), p->key); int rt = 0; size_t l2 = 0;
-		uint8_t *o2 = vh_exact(cap + 1); rc = tls13_gcm_decrypt(&bek, p->iv, p->seq, in, n, &rt, o2 + 1, &l2); o2[0] = (uint8_t)rt; out = o2; ol = l2 + 1; if (rc == 1 && l2 > n) { vt_begin("Overlong"); vt_int("len", (long)l2); vt_end(); } }
+		uint8_t *o2 = vh_exact(cap + 1); rc = tls13_gcm_decrypt(&bek, p->iv, p->seq, in, n, &rt, o2 + 1, &l2); o2[0] = (uint8_t)rt; out = o2; ol = l2 + 1; if (l2 > n) { vt_begin("Overlong"); vt_int("len", (long)l2); vt_end(); } }
 	if (!skip_out_event) {
 		vt_begin("Call"); vt_int("id", kv_int(kv, "id", 0)); ev_params(p); if (kv_has(kv, "mayrefuse")) vt_int("mayrefuse", 1); if (kv_has(kv, "touched")) vt_int("touched", kv_int(kv, "touched", 0));
 		vt_bytes("in", p->msg, n); vt_int("rc", rc); vt_int("cap", (long)cap); vt_bytes("out", out, rc == 1 ? ol : 0); vt_end();
